@@ -427,6 +427,14 @@ class Oracle:
                 out[bad] = ("overflow",)
                 todo = [i for i in left if i != bad]
                 continue
+            # a division by zero inside the oracle: a degenerate configuration (a singular Jacobian at a point, so that the
+            # mapped normal has length zero) - outside the exact model like det J = 0, named by TLC in the same way
+            m = _re.search(r"cid = (\d+)", r.out) if "The second argument of \\div is 0" in r.out else None
+            if m:
+                bad = todo[int(m.group(1)) - 1]
+                out[bad] = ("out-of-range",)
+                todo = [i for i in left if i != bad]
+                continue
             tail = "\n".join(r.out.splitlines()[-30:])
             raise MachineryError(f"Fem.tla evaluation failed:\n{tail}")
         return out, tuple(st)
